@@ -68,7 +68,7 @@ var c03OfEntryKinds = []struct {
 	{"symbol", [3]string{"c03-a", "c03-b", "c03-c"}},
 	{"number", [3]string{"0", "3", "1"}},
 	{"name-literal-pair", [3]string{"(c03-a 1)", "(c03-b 2)", "(c03-c 3)"}},
-	{"name-call-pair", [3]string{"(c03-a (c03-id 1))", "(c03-b (+ 1 2))", "(c03-c (c03-fn 0))"}},
+	{"name-call-pair", [3]string{"(c03-a (c03-id 1))", "(c03-b (+ 1 2))", "(c03-c (c03-h 0))"}},
 	{"condition-handler-pair", [3]string{"(condition c03-h)", "(c03-err c03-h)", "(error (lambda (c &rest a) (c03-id c)))"}},
 	{"function-definition", [3]string{"(c03-f (x) (c03-id x))", "(c03-g () 1)", "(c03-k (&rest xs) (c03-id xs))"}},
 	{"function-definition-without-body", [3]string{"(c03-f ())", "(c03-g (x))", "(c03-k (&rest xs))"}},
@@ -453,7 +453,7 @@ func c03OpForms(w *fw.W, idx, z int) {
 					out := "value"
 					if v.Type == lisp.LError {
 						out = v.Str
-					} else {
+					} else if ci < 2 { // (the catch-all of the handler-bind context turns every error into a value)
 						valued = true
 					}
 					w.SetAdd("opforms_outcomes", out)
@@ -477,7 +477,7 @@ func c03OpForms(w *fw.W, idx, z int) {
 			w.SetAdd("opforms_contexts", c03OfContexts[ci].name)
 		}
 		if valued {
-			w.Count("opforms_forms_with_a_value_in_some_context", 1)
+			w.Count("opforms_forms_with_a_value_at_top_level_or_in_tail_position_of_a_function", 1)
 			if it.form.emptyListAndCall {
 				w.Count("opforms_forms_with_an_empty_list_and_a_call_in_last_position_that_returned_a_value", 1)
 				w.SetAdd("opforms_operators_returning_a_value_for_an_empty_list_and_a_call_in_last_position", qname)
@@ -501,7 +501,7 @@ func c03OfFloor(d *fw.D) {
 		return
 	}
 	if d.Counters["opforms_forms_with_an_empty_list_and_a_call_in_last_position_that_returned_a_value"] == 0 {
-		d.Inconclusive("operator forms: no form with an empty list argument and a call in last position returned a value in any context")
+		d.Inconclusive("operator forms: no form with an empty list argument and a call in last position returned a value")
 	}
 	if n := len(d.Sets["opforms_operators"]); n < 20 {
 		d.Inconclusive(fmt.Sprintf("operator forms: only %d special operators and macros were found in the registry", n))
